@@ -938,5 +938,9 @@ def replay(ctx, path):
     tree = vlib.Tree().make("qmail-clean", "qmail-lspawn", "qmail-rspawn", "qmail-getpw")
     sc = json.load(open(path))
     sc = sc.get("scenario", sc)
+    if isinstance(sc, dict) and "controls" in sc and "messages" in sc:
+        # third part: a history of the driven world (hostile or oversized reports on qmail-send's report channels)
+        from props import qs_common as q
+        return q.replay_scenario(ctx, path, ("C18", "C03", "C04", "C14"))
     v = run_one(tree, sc, ctx.stats, "replay")
     return [v[0]] if v else []
